@@ -284,7 +284,7 @@ type IterResult struct {
 	OpenOK bool
 }
 
-func readOpts(o IterOpts, mds *[]any) []mcap.ReadOpt {
+func ReadOpts(o IterOpts, mds *[]any) []mcap.ReadOpt {
 	var opts []mcap.ReadOpt
 	if o.UseIndex != nil {
 		opts = append(opts, mcap.UsingIndex(*o.UseIndex))
@@ -353,7 +353,7 @@ func Iterate(rd io.Reader, o IterOpts) (res *IterResult) {
 		return res
 	}
 	defer reader.Close()
-	it, err := reader.Messages(readOpts(o, &res.Mds)...)
+	it, err := reader.Messages(ReadOpts(o, &res.Mds)...)
 	if err != nil {
 		res.End, res.Err = "error", err
 		return res
